@@ -205,6 +205,7 @@ def layout(kind, i, focus):
 # ------------------------------------------------------------------------------------------ reject, not trim
 BAD_EXPRS = ['amount >', 'lambda: 0', 'contains("A"', '[1, 2]', '1 +* 2', 'amount ** 2',
              '', '   ', ')', '"open', 'amount amount', 'contains("A") and']       # degenerate texts: nothing at all, blanks, a lone bracket, an open string
+BIND_NAMES = ['total', 'Total_X', 'ORDER_id']        # a binding's name may be written in any letter case
 UNKNOWN_KEYS = ['matches', 'tag', 'categroy', 'cat egory', 'filter', 'Sub-category']
 BAD_PRIO = ['high', '1.5', '', '1e3']
 
@@ -249,11 +250,11 @@ def corrupt_merchants(i, how):
                 if lines[k].strip().lower().startswith('match:'):
                     lines[k] = 'match: ' + BAD_EXPRS[pick % len(BAD_EXPRS)]
         elif how == 'bad-let':
-            lines.insert(st, 'let: total = ' + BAD_EXPRS[pick % len(BAD_EXPRS)])
+            lines.insert(st, 'let: ' + BIND_NAMES[pick % 3] + ' = ' + BAD_EXPRS[pick % len(BAD_EXPRS)])
         elif how == 'let-no-eq':
             lines.insert(st, 'let: total amount')
         elif how == 'bad-field':
-            lines.insert(st, 'field: extra = ' + BAD_EXPRS[pick % len(BAD_EXPRS)])
+            lines.insert(st, 'field: ' + ['extra', 'Order_Id', 'MEMO2'][(pick // 4) % 3] + ' = ' + BAD_EXPRS[pick % len(BAD_EXPRS)])
         elif how == 'field-no-eq':
             lines.insert(st, 'field: nothing')
         elif how == 'bad-priority':
